@@ -319,6 +319,19 @@ INSTRUMENT_FILES = [
 ]
 
 
+_FUNC_RE = re.compile(r"^func\s+(?:\([^)]*\)\s*)?([A-Za-z_]\w*)\s*[\(\[]", re.M)
+
+
+def package_funcs(reldir):
+    """names of the functions and methods declared in the non-test Go files of /repo/<reldir>"""
+    names = set()
+    d = os.path.join(REPO, reldir)
+    for fn in sorted(os.listdir(d)):
+        if fn.endswith(".go") and not fn.endswith("_test.go"):
+            names.update(_FUNC_RE.findall(open(os.path.join(d, fn)).read()))
+    return sorted(names)
+
+
 def instrument(scratch, files=None):
     """Builds tools/instrument, instruments the current /repo sources, returns
     (overlay dict, listing dict file -> text)."""
@@ -337,7 +350,7 @@ def instrument(scratch, files=None):
         if not os.path.exists(src):
             raise RuntimeError("source file to instrument is missing: " + f)
         dst = os.path.join(d, f.replace("/", "__"))
-        rc, out = sh([tool, "-in", src, "-out", dst, "-list"], timeout=120)
+        rc, out = sh([tool, "-in", src, "-out", dst, "-list", "-pkgfuncs", ",".join(package_funcs(os.path.dirname(f)))], timeout=120)
         if rc != 0:
             raise RuntimeError("instrumenting %s failed: %s" % (f, out[-800:]))
         overlay[src] = dst
@@ -346,9 +359,127 @@ def instrument(scratch, files=None):
     return overlay, listing
 
 
+LOCK_LIKE = {"Lock", "Unlock", "RLock", "RUnlock", "Wait", "Broadcast", "Signal"}
+# calls the concurrent models treat as steps (same list as syncCalls in tools/instrument): kept as
+# tokens when they cannot be resolved to a listed function of the package
+MODEL_CALLS = {"cancel", "workerCtxCancel", "schedulesCtxCancel", "runFunction", "close", "none", "take", "set", "running",
+               "NextIteration", "MaxIterationsReached", "IterationsExhausted", "RecordDroppedIteration", "recordDropped", "halt",
+               "stop", "sendJobsForExecution", "waitForNewJobs", "maxIterationsReached", "WaitForCompletion", "Reset", "Run",
+               "Trigger", "SnapshotProgress", "GetTotals", "Stop", "Start", "Restart", "startFirst", "startNext", "NewTicker",
+               "NewTimer", "CollectLifetime", "Update", "drain", "Snapshot", "Record"}
+NOT_RESOLVED = LOCK_LIKE | {"Add", "Load", "Store", "Swap", "CompareAndSwap", "Done", "Err", "Stop", "Start", "Reset", "Run",
+                            "close", "cancel", "NewTicker", "NewTimer", "Record", "Update", "Snapshot"}
+
+
+def _canon_expr(e):
+    """channel / call expression -> rename-robust token"""
+    e = e.strip()
+    if e.endswith("()"):
+        return e[:-2].split(".")[-1] + "()"
+    return "chan"
+
+
+def flatten_syncops(raw, declared=None):
+    """raw: {'dir/file.go::Type.method': 'op ; op ; ...'} -> same keys, canonical flattened listing:
+    calls of functions of the same package are replaced by the callee's own (flattened) operations,
+    goroutine bodies are inlined at their go statement, receiver / field / channel names are dropped.
+    Extracting or inlining a helper, turning a goroutine literal into a method and renaming
+    unexported identifiers leave the flattened listing unchanged; reordering, adding or removing
+    a synchronisation operation does not."""
+    declared = declared or {}   # package dir -> names of all functions declared there
+    by_pkg = {}
+    for key in raw:
+        f, fn = key.split("::", 1)
+        pkg = os.path.dirname(f)
+        by_pkg.setdefault(pkg, {}).setdefault(fn.split(".")[-1] if not fn.endswith((".go", ".func")) else None, []).append(key)
+
+    def resolve(key, op_expr):
+        f, fn = key.split("::", 1)
+        pkg = os.path.dirname(f)
+        segs = op_expr.split(".")
+        m = segs[-1]
+        if m in NOT_RESOLVED:
+            return None   # names shared with sync / time / context objects: never a helper of the package
+        cands = by_pkg.get(pkg, {}).get(m, [])
+        if not cands:
+            return None
+        if segs[0] != "@":
+            return None   # a call through a local variable or a package: not resolved
+        base = fn
+        for suf in (".go", ".func"):
+            while base.endswith(suf):
+                base = base[:-len(suf)]
+        typ = base.split(".")[0] if "." in base else None
+        if len(segs) == 2 and typ:
+            own = [k for k in cands if k.split("::", 1)[1] == typ + "." + m]
+            if own:
+                same_file = [k for k in own if k.startswith(f + "::")]
+                return (same_file or own)[0]
+            return None
+        if len(cands) == 1:
+            return cands[0]   # a method of a field of the receiver, unique in the package
+        return None
+
+    memo = {}
+
+    def flat(key, stack):
+        if key in memo:
+            return memo[key]
+        out = []
+        ops = [o for o in raw.get(key, "").split(" ; ") if o]
+        go_bodies = 0
+        for op in ops:
+            suffix = ""
+            for sfx in (" (loop entry)", " (loop)"):
+                if op.endswith(sfx):
+                    op, suffix = op[:-len(sfx)], sfx
+            prefix = ""
+            for pre in ("defer ", "case "):
+                if op.startswith(pre):
+                    prefix += pre
+                    op = op[len(pre):]
+            if op in ("select", "default"):
+                out.append(prefix + op)
+                continue
+            if op.startswith("recv ") or op.startswith("send "):
+                out.append(prefix + op[:5] + _canon_expr(op[5:]))
+                continue
+            if op == "go":
+                body = key + ".go"
+                inner = flat(body, stack + [key]) if body in raw and body not in stack else []
+                out.append("go{" + " ; ".join(inner) + "}")
+                continue
+            if op.startswith("go "):
+                callee = resolve(key, op[3:])
+                inner = flat(callee, stack + [key]) if callee and callee not in stack and len(stack) < 8 else [op[3:].split(".")[-1]]
+                out.append("go{" + " ; ".join(inner) + "}")
+                continue
+            callee = resolve(key, op)
+            if callee and callee != key and callee not in stack and len(stack) < 8:
+                inner = flat(callee, stack + [key])
+                out.extend((prefix + x + suffix) if (prefix or suffix) else x for x in inner)
+                continue
+            segs = op.split(".")
+            pkg = os.path.dirname(key.split("::", 1)[0])
+            if segs[-1] in declared.get(pkg, ()) and segs[-1] not in NOT_RESOLVED and segs[-1] not in MODEL_CALLS \
+                    and (segs[0] == "@" or len(segs) == 1) \
+                    and not by_pkg.get(pkg, {}).get(segs[-1]):
+                continue   # a helper of the package that performs no synchronisation itself
+            tok = ".".join(segs[-2:]) if segs[-1] in LOCK_LIKE and len(segs) >= 2 else segs[-1]
+            if segs[-1] in LOCK_LIKE and len(segs) >= 2:
+                tok = segs[-1] if segs[-2] in ("L",) else segs[-1]
+            out.append(prefix + tok + suffix)
+        if not stack:
+            memo[key] = out
+        return out
+
+    return {k: " ; ".join(flat(k, [])) for k in raw}
+
+
 def syncops_drift(listing, functions):
-    """Compares the sync-op listing of the given 'file::Function' entries with
-    the committed expectation corpus/syncops.json. Returns list of differences."""
+    """Compares the flattened, rename-robust sync-op listing of the given 'file::Function' entries
+    (see flatten_syncops) with the one computed from the committed corpus/syncops.json.
+    Returns (list of differences, current raw listing)."""
     p = os.path.join(VERIF, "corpus", "syncops.json")
     expected = json.load(open(p)) if os.path.exists(p) else {}
     diffs = []
@@ -358,9 +489,17 @@ def syncops_drift(listing, functions):
             if ": " in line:
                 fn, ops = line.split(": ", 1)
                 current[f + "::" + fn] = ops.strip()
+    decl_now = {}
+    for f in listing:
+        d = os.path.dirname(f)
+        if d not in decl_now:
+            decl_now[d] = package_funcs(d)
+    fe = flatten_syncops({k: v for k, v in expected.items() if k != "__declared__"}, expected.get("__declared__", {}))
+    fc = flatten_syncops(current, decl_now)
+    current["__declared__"] = decl_now
     for key in functions:
-        if key not in expected:
-            continue
-        if current.get(key) != expected[key]:
-            diffs.append((key, expected[key], current.get(key)))
+        if key not in expected or key == "__declared__" or key.endswith((".go", ".func")):
+            continue   # goroutine / closure bodies are compared through the function that starts them
+        if fc.get(key) != fe[key]:
+            diffs.append((key, fe[key], fc.get(key)))
     return diffs, current
